@@ -62,6 +62,7 @@ class Cfg:
         self.win_no_arrange = False  # polars-only checks may use the frame order
         self.filter_kw = True
         self.null_lits = True
+        self.str_join = True  # the ordered aggregate str.join (Polars only in this sandbox)
         self.math = False
         self.isin_empty = False  # x.is_in() without values (broadcast literal; see C03)
         self.count_star_filter = True
@@ -363,6 +364,8 @@ class ExprGen:
             kind = self.pick(["sum", "mean", "meani", "min", "max"])
         elif fam == "bool":
             kind = self.pick(["any", "all", "min", "max"])
+        elif fam == "str" and self.cfg.str_join and self.s.id_refs and self.chance(2):
+            kind = "str.join"
         else:
             kind = self.pick(["min", "max"])
         ctx = dict(ctx_extra or {})
@@ -383,6 +386,10 @@ class ExprGen:
         if arg is None:
             return self._agg_fallback(fam, ctx)
         e = ["fn", op, [arg], ctx]
+        if op == "str.join":
+            # ordered aggregate: the order is made total with the id column(s)
+            e[2].append(["lit", self.pick(["", ",", "-", " | ", "'"])])
+            ctx["arrange"] = self.arrange_keys(True)
         if self.cfg.filter_kw and self.chance(3):
             nf = d(st.integers(1, 2))
             ctx["filter"] = [self._filter_cond(depth) for _ in range(nf)]
